@@ -26,6 +26,14 @@ def slices(tier):
         'bare-outer-S3': ('bare', ('a', 'b', 'c', 'args', 'kwargs', 'p', 'k', 'zz'), 4,
                           [(('args', VA, False), ('kwargs', VK, False))],
                           space.universe(3, 'abc', BOTH_VA, BOTH_VK), USE[:1]),
+        # inner named parameters called like the outer's star parameters
+        'starnamed-inner-S2': ('pairs', ('a', 'args', 'kwargs', 'p', 'k', 'zz'), 4,
+                               [(('args', VA, False), ('kwargs', VK, False)), (('a', space.POK, False), ('args', VA, False), ('kwargs', VK, False)),
+                                (('args', VA, False),), (('kwargs', VK, False),)],
+                               space.universe(2, ('args', 'kwargs'), ('p',), ('k',)), USE),
+        'bare-outer-starnamed-S2': ('bare', ('a', 'args', 'kwargs', 'p', 'k', 'zz'), 4,
+                                    [(('args', VA, False), ('kwargs', VK, False))],
+                                    space.universe(2, ('args', 'kwargs'), ('p',), ('k',)), USE[:1]),
     }
     if tier == 'thorough':
         out['pairs-S3'] = ('pairs', ('a', 'b', 'c', 'x', 'y', 'args', 'kwargs', 'zz'), 7,
